@@ -397,7 +397,7 @@ Definition fq_read_set (fuel ffuel : nat) (n : option nat) (r : fq) (rs : fq_set
     let '(r1, ps, lr) := fq_set_loop fuel fuel ffuel n true r [] in
     match lr with
     | QLDone => (r1, mkFqSet (qbuf r1) ps, QOSetOk)
-    | QLErr e => (r1, mkFqSet (qsbuf rs) ps, QOErr e)
+    | QLErr e => (r1, mkFqSet (qsbuf rs) [], QOErr e)      (* the set is emptied before the error is returned *)
     | QLPanic x => (r1, mkFqSet (qsbuf rs) ps, QOPanic x)
     | QLFuel => (r1, mkFqSet (qsbuf rs) ps, QOFuel)
     | QLNone => (r1, mkFqSet (qsbuf rs) ps, QONone)
